@@ -28,6 +28,8 @@ def run(prog, R, tier="quick", only_rule=None):
     c04c(prog, R)
     c04d(prog, R)
     c05.c05a(prog, R, rid="C04.e")
+    # a failed operation must not delete files the (still current) version names, or the next reopen fails
+    c05.c05c(prog, R, rid="C04.f")
 
 
 def c04a(prog, R, rid="C04.a"):
@@ -87,8 +89,8 @@ def c04a(prog, R, rid="C04.a"):
     r.floor(10)
 
 
-def c04c(prog, R):
-    r = R.rule("C04.c", "id counters restart above everything that was recovered", "D")
+def c04c(prog, R, rid="C04.c"):
+    r = R.rule(rid, "id counters restart above everything that was recovered", "D")
     f = prog.need("tree::Tree::recover")
     ok = False
     detail = ""
@@ -120,13 +122,18 @@ def c04c(prog, R):
         detail = str(sorted(short(x) for x in names))
         ok = any(x.endswith("Iterator::max") for x in names) and any("list_ids" in x for x in names) and \
             any(x.endswith("Option::map") or "map" in x for x in names)
+        # ids that only survive in the persisted GC statistics count as well (finding F8)
+        gc_ok = any(x.endswith("Version::gc_stats") for x in names) and any(x.endswith("::keys") for x in names)
+        r.check(gc_ok, "%s|blob id counter also continues above the ids in the GC statistics" % g.path,
+                "the blob file id counter can restart at an id that the persisted GC statistics still carry an entry for: the new "
+                "blob file inherits stale garbage and can be judged dead while referenced", g.where(c.bb), detail)
         recv = origins(g, c.args[0])
         ok = ok and any("blob_file_id_counter" in o.path for o in recv)
     h = prog.hir.get(g.path)
     plus = any(n.get("k") == "bin" and n["op"] == "+" and hir_expr_str(n) == "(x + 1)" for n in hir_walk(h["body"])) if h else False
     r.check(ok and plus, "%s|blob_file_id_counter.set(max(blob ids) + 1)" % g.path,
             "the blob file id counter does not restart above the recovered blob file ids", g.where(), detail)
-    r.floor(2)
+    r.floor(3)
 
 
 def leads_to_err(f, bb):
